@@ -32,7 +32,7 @@ class FakeSemLock:
         sched = Scheduler.current
         self.sched = sched
         self.kind, self.value, self.maxvalue = kind, value, maxvalue
-        self.sid = len(sched.sems)
+        self.sid = sched.alloc_sid()
         self.cnt = {}            # logical thread -> hold count
         self.handle = 1000 + self.sid
         sched.sems.append(self)
@@ -64,7 +64,10 @@ class FakeSemLock:
 
     # ---- the interface billiard uses
     def acquire(self, block=True, timeout=None):
-        return self.sched.sem_op(self, 'acq', bool(block), bool(block) and timeout is not None)
+        # SemLock.acquire: a deadline that has already passed behaves like block=False
+        expired = timeout is not None and timeout <= 0
+        blocking = bool(block) and not expired
+        return self.sched.sem_op(self, 'acq', blocking, blocking and timeout is not None)
 
     def release(self):
         return self.sched.sem_op(self, 'rel', False, False)
@@ -150,6 +153,7 @@ class LThread:
         self.callidx = 0
         self.results = []
         self.error = None
+        self.dormant = False          # a feeder thread that has not been started yet
         self.th = threading.Thread(target=self._main, daemon=True)
 
     def _main(self):
@@ -177,9 +181,49 @@ class Scheduler:
         self.callidx = []
         self.schedule = []
         self.killing = False
-        self.extra_ops = {}           # kind -> handler(thread, obj, go) for non-semaphore yields
+        self.sid_plan = []            # explicit semaphore ids for the next creations (else: creation order)
+        self.pipe = []                # FakePipe contents (whole messages)
+        self.activated = []           # logical threads started by a Thread.start() during the current step
+
+    def alloc_sid(self):
+        if self.sid_plan:
+            return self.sid_plan.pop(0)
+        used = {s.sid for s in self.sems}
+        n = 0
+        while n in used:
+            n += 1
+        return n
 
     # ---- called on logical threads
+    def pipe_op(self, kind, data=None, timed=False):
+        """yield point for a pipe operation: kind 'send' | 'recv' | 'poll'"""
+        t = self.running
+        if t is None:
+            raise RuntimeError('pipe operation outside a logical thread')
+        if self.killing:
+            raise Killed()
+        t.pending = (None, kind, data, timed)
+        self.back.release()
+        t.resume.acquire()
+        if self.killing:
+            raise Killed()
+        t.pending = None
+        if kind == 'send':
+            self.pipe.append(data)
+            self.log(t.idx, 100, 3, self.decode(data), t)
+            return None
+        if kind == 'recv':
+            m = self.pipe.pop(0)
+            self.log(t.idx, 100, 4, self.decode(m), t)
+            return m
+        if kind == 'poll':
+            res = 1 if (t.go and self.pipe) else 0
+            self.log(t.idx, 100, 5, res, t)
+            return bool(res)
+        raise RuntimeError(kind)
+
+    decode = staticmethod(lambda b: b)
+
     def sem_op(self, sem, kind, blocking, timed):
         t = self.running
         if t is None:
@@ -234,16 +278,32 @@ class Scheduler:
 
     def start_all(self):
         for t in self.threads:
+            if t.dormant:
+                continue
             self.running = t
             t.th.start()
             self.back.acquire()       # until it parks at its first yield point or finishes
+        self.running = None
+
+    def activate(self, t, body):
+        """called from a logical thread (Thread.start()): t begins after the current step"""
+        t.body = body
+        self.activated.append(t)
+
+    def _run_activated(self):
+        while self.activated:
+            t = self.activated.pop(0)
+            t.dormant = False
+            self.running = t
+            t.th.start()
+            self.back.acquire()
         self.running = None
 
     def options(self):
         """enabled (thread index, go) choices in the current state"""
         out = []
         for t in self.threads:
-            if t.done or t.pending is None:
+            if t.done or t.dormant or t.pending is None:
                 continue
             sem, kind, blocking, timed = t.pending
             if kind == 'acq':
@@ -251,10 +311,18 @@ class Scheduler:
                     out.append((t.idx, True))
                 if timed:
                     out.append((t.idx, False))
-            elif kind in ('rel', 'zero'):
+            elif kind in ('rel', 'zero', 'send'):
                 out.append((t.idx, True))
+            elif kind == 'recv':
+                if self.pipe:
+                    out.append((t.idx, True))
+            elif kind == 'poll':
+                if self.pipe or not timed:
+                    out.append((t.idx, True))
+                if timed:
+                    out.append((t.idx, False))
             else:
-                out.extend(self.extra_ops[kind].options(t))
+                raise RuntimeError(kind)
         return out
 
     def step(self, idx, go):
@@ -265,6 +333,7 @@ class Scheduler:
         t.resume.release()
         self.back.acquire()
         self.running = None
+        self._run_activated()
         if t.error:
             raise RuntimeError('logical thread %d crashed: %s' % (idx, t.error))
 
@@ -274,7 +343,7 @@ class Scheduler:
         while True:
             opts = self.options()
             if not opts:
-                return 'finished' if all(t.done for t in self.threads) else 'deadlock'
+                return 'finished' if all(t.done or t.dormant for t in self.threads) else 'deadlock'
             if n >= max_steps:
                 return 'step-limit'
             c = chooser(opts, n)
@@ -288,7 +357,7 @@ class Scheduler:
     def kill(self):
         self.killing = True
         for t in self.threads:
-            if not t.done:
+            if not t.done and not t.dormant:
                 self.running = t
                 t.resume.release()
                 self.back.acquire()
@@ -298,4 +367,5 @@ class Scheduler:
                 t.th.join(5)
 
     def pending_sems(self):
-        return [(-1 if (t.done or t.pending is None) else t.pending[0].sid) for t in self.threads]
+        return [(-1 if (t.done or t.dormant or t.pending is None)
+                 else (100 if t.pending[0] is None else t.pending[0].sid)) for t in self.threads]
